@@ -30,7 +30,13 @@ if [ "$SKIP_SUITE" = 1 ]; then suite=skipped; else
 if (cd $W && go test -vet=off -count=1 ./... >/dev/shm/seed-suite.$$.log 2>&1); then suite=pass; else suite=FAIL; fi; fi
 VERIF_NO_EVIDENCE=1 VERIF_REPO=$W "$(dirname "$(readlink -f "$0")")"/check $prop quick > /dev/shm/seed-check.$$.log 2>&1; rc=$?
 oracle=$(grep -m1 -o 'oracle=[^ ]*' /dev/shm/seed-check.$$.log)
-echo "SEED $prop $(basename $dir): demo-clean=$res_clean demo-mutated=$res_mut suite=$suite check-exit=$rc $oracle"
+# the minimised replay must fail because of the change: on the unchanged tree it replays clean
+rp=$(grep -m1 -o 'replay=/[^ ]*\.json' /dev/shm/seed-check.$$.log | sed 's/replay=//')
+clean=na
+if [ -n "$rp" ] && [ -f "$rp" ]; then
+  if VERIF_NO_EVIDENCE=1 "$(dirname "$(readlink -f "$0")")"/check replay "$rp" 2>/dev/null | grep -q REPLAY-VIOLATION; then clean=ALSO-FAILS-ON-THE-UNCHANGED-TREE; else clean=clean; fi
+fi
+echo "SEED $prop $(basename $dir): demo-clean=$res_clean demo-mutated=$res_mut suite=$suite check-exit=$rc $oracle replay-on-unchanged-tree=$clean"
 grep -m2 -A1 '^VIOLATION' /dev/shm/seed-check.$$.log | cut -c1-300
 [ $rc = 2 ] && tail -5 /dev/shm/seed-check.$$.log
 if [ -n "$SAVE" ]; then
